@@ -93,6 +93,12 @@ TABLE = [
     ('R4', 'brotli::CompressorWriter<WriterWithCount<W>> -> VCompressorWriter<W>', re.compile(r'brotli::CompressorWriter<WriterWithCount<(\w+)>>'), r'VCompressorWriter<\1>'),
     ('R4', 'brotli::CompressorWriter -> VCompressorWriter', re.compile(r'brotli::CompressorWriter\b'), 'VCompressorWriter'),
     ('R10', 'X.write_u32::<LittleEndian>(V) -> vio_write_u32_le(&mut X, V)', re.compile(r'\b(\w+)\.write_u32::<LittleEndian>\('), r'vio_write_u32_le(&mut \1, '),
+    ('R4', 'Box<BrotliState<StandardAlloc, ..>> -> Box<VBrotliState>', re.compile(r'BrotliState<StandardAlloc, StandardAlloc, StandardAlloc>'), 'VBrotliState'),
+    ('R4', 'BrotliState::new(StandardAlloc::default() x3) -> VBrotliState::new()',
+     re.compile(r'BrotliState::new\(\s*StandardAlloc::default\(\),\s*StandardAlloc::default\(\),\s*StandardAlloc::default\(\),?\s*\)'), 'VBrotliState::new()'),
+    ('R4', 'brotli::BrotliDecompressStream -> VBrotliDecompressStream', re.compile(r'brotli::BrotliDecompressStream\b'), 'VBrotliDecompressStream'),
+    ('R4', 'brotli::BrotliResult -> VBrotliResult', re.compile(r'brotli::BrotliResult\b'), 'VBrotliResult'),
+    ('R11', 'vec![0u8; N] -> vzeroed(N)', re.compile(r'vec!\[0u8; ([^\]]+)\]'), r'vzeroed(\1)'),
     ('R4', 'Cursor::new -> VCursor::new', re.compile(r'(?<![A-Za-z_:])Cursor::new\('), 'VCursor::new('),
     ('R8', '(&mut X).take(N).read_to_end(&mut V) -> vio_read_to_end_take',
      re.compile(r'\(&mut ([\w.]+)\)\s*\.take\(([^;]*?)\)\s*\.read_to_end\(&mut (\w+)\)'), r'vio_read_to_end_take(&mut \1, \2, &mut \3)'),
